@@ -217,9 +217,9 @@ THOROUGH.append("pipe_edit_delrange_rc_t1")
 QUICK.append(_reg(Pipeline("pipe_edit_delrange_rc_multi_t1", 1, _TWO, splitters=SPL, preempt=0, driver="multi", edits=[("rc", 1, 0), ("delrange", 1, 0)])).name)
 QUICK.append(_reg(Pipeline("pipe_edit_subst_multi_t1", 1, _TWO, splitters=SPL, preempt=0, driver="multi", edits=[("subst", 1, 0)])).name)
 THOROUGH += ["pipe_edit_delrange_rc_multi_t1", "pipe_edit_subst_multi_t1"]
-from harness.pipe import MID as _MID, SPL3 as _SPL3
-QUICK.append(_reg(Pipeline("pipe_mid_subst_multi_t1", 1, _MID, splitters=_SPL3, preempt=0, driver="multi", edits=[("rc", 1, 0), ("subst", 1, 0)], sym_alpha=(0, 1, 2, 3, 4))).name)
-QUICK.append(_reg(Pipeline("pipe_mid_delrange_multi_t1", 1, _MID, splitters=_SPL3, preempt=0, driver="multi", edits=[("rc", 1, 0), ("delrange", 1, 0)])).name)
+from harness.pipe import MID as _MID, SPL3 as _SPL3, MID_ALTS as _MID_ALTS
+QUICK.append(_reg(Pipeline("pipe_mid_subst_multi_t1", 1, _MID, splitters=_SPL3, preempt=0, driver="multi", edits=[("rc", 1, 0), ("subst", 1, 0)], sym_alpha=(0, 1, 2, 3, 4), alts=_MID_ALTS)).name)
+QUICK.append(_reg(Pipeline("pipe_mid_delrange_multi_t1", 1, _MID, splitters=_SPL3, preempt=0, driver="multi", edits=[("rc", 1, 0), ("delrange", 1, 0)], alts=_MID_ALTS)).name)
 THOROUGH += ["pipe_mid_subst_multi_t1", "pipe_mid_delrange_multi_t1"]
 THOROUGH += ["pipe_edit_subst_t1", _reg(Pipeline("T_pipe_edit_indel_rc_t1", 1, _TWO, splitters=SPL, preempt=0, driver="api", edits=[("rc", 1, 0), ("del", 1, 0), ("ins", 1, 0)])).name,
              _reg(Pipeline("T_pipe_edit_subst_multi_t2", 2, _TWO, splitters=SPL, preempt=0, driver="multi", edits=[("subst", 1, 0)])).name]
